@@ -1149,10 +1149,10 @@ Section Obs.
     intros Hin H1 asp Hasp En. unfold one_dim in H1.
     destruct (dict_get (q_inputs q) r) as [[x|a]|] eqn:E; try discriminate.
     - destruct (v_rank q den Hv Hden asp Hasp) as [arr [Hval Hr]]. rewrite En in Hval. unfold value_in in Hval.
-      rewrite E in Hval. injection Hval as <-. apply Nat.eqb_eq in H1. lia.
+      rewrite E in Hval. injection Hval as <-. apply Nat.eqb_eq in H1. rewrite <- Hr. exact H1.
     - exfalso. unfold input_names in Hin. apply in_map_iff in Hin as [[k w] [Ek Hkw]]. cbn in Ek. subst k.
       assert (In r (map fst (q_inputs q))) as Hm by (apply in_map_iff; now exists (r, w)).
-      destruct (dict_get_some_of_In _ _ Hm) as [w' Hw']. congruence.
+      destruct (dict_get_some_of_In _ _ Hm) as [w' Hw']. rewrite E in Hw'. discriminate Hw'.
   Qed.
 
   Lemma declared_one_dim z k : In z (map aname (all_aspecs specs)) -> axes_of specs z = [Some k] -> one_dim q z = true.
@@ -1361,6 +1361,121 @@ Section Obs.
 
 End Obs.
 
+(* ================================================================ kind 1 without zipped coordinates *)
+Section ObsZ.
+  Variable q : req.
+  Variable den : den_state.
+  Variable outv : str -> option val.
+  Variable ds : dataset.
+  Hypothesis Hv : valid_req q = true.
+  Hypothesis Hden : denote_run sym_body (q_funcs q) (q_inputs q) (q_internal q) = Ok den.
+  Hypothesis Houtv : forall n, outv n = dict_get (d_out den) n.
+  Hypothesis Hds : dataset_vars (specs_of q) (input_names q) (output_names q) (q_li q) = Ok ds.
+  Hypothesis Hconf : sizes_conflict (axis_sizes q den) = false.
+  Hypothesis Hplain :
+    existsb (fun f => match fspec f with
+                      | None => existsb (fun o => match dict_get (d_out den) o with
+                                                  | Some (VA a) => 1 <? length (shp a)
+                                                  | _ => false end) (fouts f)
+                      | Some _ => false end) (q_funcs q) = false.
+  Hypothesis Hk1 : q_kind q = 1.
+
+  Local Notation specs := (specs_of q).
+  Local Notation vars := (map (fun a : darray => (da_name a, da_dims a)) (ds_arrays ds)
+                          ++ map (fun n : str => (n, @nil str))
+                                 (filter (fun n : str => plain_rank outv n =? 0) (ds_plain ds))).
+  Local Notation cs := (ds_coords ds
+                        ++ map (fun n : str => {| co_name := n; co_axes := [n]; co_srcs := [n] |})
+                               (filter (fun n : str => plain_rank outv n =? 1) (ds_plain ds))).
+
+  Lemma wanted1_shape co : In co cs -> sel_wanted (q_kind q) co = true ->
+    In co (ds_coords ds) /\ (exists k, co_axes co = [k]) /\ 2 <= length (co_srcs co).
+  Proof.
+    unfold sel_wanted. rewrite Hk1. cbn [Nat.eqb]. intros Hco Hw.
+    destruct (co_axes co) as [|k [|? ?]] eqn:Eax; try discriminate. apply Nat.ltb_lt in Hw.
+    apply in_app_or in Hco as [Hco|Hco].
+    - repeat split; [assumption|now exists k|lia].
+    - apply in_map_iff in Hco as [n [<- _]]. cbn in Hw. lia.
+  Qed.
+
+  Lemma labels_multi_ok co : In co (ds_coords ds) -> 1 <= length (co_srcs co) ->
+    exists lab, labels_of q outv co = Ok lab.
+  Proof.
+    intros Hco Hl. unfold labels_of.
+    destruct (mapM_total (source_value q outv) (co_srcs co)) as [arrs Harrs].
+    { intros n Hn. destruct (ds_src q den ds Hv Hden Hds co n Hco Hn) as [arr [Hval _]].
+      rewrite (source_value_eq q den outv Houtv), Hval. now eexists. }
+    rewrite Harrs. cbn [bind]. destruct (co_srcs co) as [|n0 rest] eqn:Es; [cbn in Hl; lia|].
+    cbn [mapM] in Harrs.
+    destruct (ds_src q den ds Hv Hden Hds co n0 Hco ltac:(rewrite Es; now left)) as [arr [Hval _]].
+    rewrite (source_value_eq q den outv Houtv), Hval in Harrs. cbn [bind] in Harrs.
+    destruct (mapM (source_value q outv) rest); [|discriminate]. cbn in Harrs. injection Harrs as <-. now eexists.
+  Qed.
+
+  Lemma sels_rendered1 : exists sels, render_sels q outv vars cs = Ok sels.
+  Proof.
+    unfold render_sels.
+    match goal with |- exists sels, (do l <- mapM ?F ?L; _) = _ => destruct (mapM_total F L) as [l Hl] end.
+    - intros v _. apply mapM_total. intros co Hco. apply filter_In in Hco as [Hco Hw].
+      apply sort_by_name_In in Hco. apply andb_true_iff in Hw as [Hw _].
+      destruct (wanted1_shape co Hco Hw) as [Hcd [_ Hl]].
+      destruct (labels_multi_ok co Hcd ltac:(lia)) as [lab ->]. cbn. now eexists.
+    - rewrite Hl. cbn. now eexists.
+  Qed.
+
+  Lemma ds_obs_defined1 sels : render_sels q outv vars cs = Ok sels ->
+    ds_obs q outv true ds = Ok {| o_same := true; o_vars := []; o_coords := []; o_sels := sels |}.
+  Proof.
+    intros Hsels. destruct (vars_rendered q den outv ds Hv Hden Houtv Hds) as [vs Hvs].
+    destruct (coords_rendered q den outv ds Hv Hden Houtv Hds Hconf Hplain) as [cos Hcos].
+    unfold ds_obs. rewrite (no_merged_conflict q den outv ds Hv Hden Houtv Hds Hconf Hplain).
+    rewrite (no_plain_nd q den outv ds Hv Hden Houtv Hds Hplain).
+    rewrite Hvs, Hcos, Hsels. cbn [bind]. now rewrite Hk1.
+  Qed.
+
+  (* without any selection entry, no output has two zipped root inputs on an axis *)
+  Lemma zsel_ok_all sels o ks k : render_sels q outv vars cs = Ok sels -> sels = [] ->
+    In (o, ks) (mapped_outputs q) -> In k ks -> zsel_ok q sels o k = true.
+  Proof.
+    intros Hsels Hnil Hmo Hk. unfold zsel_ok.
+    destruct (length (roots_of q o k) <? 2) eqn:El; [reflexivity|]. exfalso. apply Nat.ltb_ge in El.
+    destruct (mapped_output_facts q den Hv Hden o ks Hmo) as [Ho [[ms Hcomp] [ms' [asp [Hms' [Hasp [En ->]]]]]]].
+    assert (Hrn : NoDup (roots_of q o k)) by (unfold roots_of; apply dedup_NoDup19).
+    destruct (roots_of q o k) as [|x [|z rest]] eqn:Er; cbn in El; try lia.
+    assert (Hne : x <> z) by (inversion Hrn as [|? ? Hn _]; subst; intros ->; apply Hn; now left).
+    assert (Hroot : forall r, In r (roots_of q o k) ->
+              XrLabelFacts.one_dimensional specs r /\ visible (input_names q) (q_li q) r = true
+              /\ In r (carried (trace_fuel specs) specs o k)).
+    { intros r Hr. destruct (roots_facts q o k r Hr) as [Hc [H1 Hi]]. repeat split; try assumption.
+      - exact (root_one_dimensional q den Hv Hden r Hi H1).
+      - unfold visible. apply orb_true_iff. left. now apply mem_str_In. }
+    rewrite Er in Hroot.
+    destruct (Hroot x (or_introl eq_refl)) as [Hx1 [Hxv Hxc]].
+    destruct (Hroot z (or_intror (or_introl eq_refl))) as [Hz1 [Hzv Hzc]].
+    destruct (group_coord q den ds Hv Hden Hds o ms k x Hcomp Ho Hx1 Hxv Hxc) as [c [Hc [Hax [Hnd' [Hxin [Hall _]]]]]].
+    pose proof (Hall z Hz1 Hzv Hzc) as Hzin.
+    assert (Hlen : 2 <= length (co_srcs c)).
+    { destruct (co_srcs c) as [|a [|b t]]; cbn; try lia; [destruct Hxin|].
+      destruct Hxin as [<-|[]], Hzin as [<-|[]]. congruence. }
+    destruct (labels_multi_ok c Hc ltac:(lia)) as [lab Hlab].
+    (* o is one of the labelled arrays, with its declared axes as dims *)
+    destruct (proj2 (dataset_arrays_spec _ _ _ _ _ (v_out_names_nodup q den Hv Hden) (v_cons q den Hv Hden)
+                       (v_wf q den Hv Hden) (v_no_colon q den Hv Hden) Hds) o ms Hcomp
+                    ltac:(now apply (outputs_In q))) as [a [Ha Hna]].
+    pose proof (ds_arrays_dims _ _ _ _ _ a Hds Ha) as Hd. rewrite Hna, <- En in Hd.
+    rewrite (dims_are_axes specs ms' asp (v_cons q den Hv Hden) Hms' Hasp (v_no_colon q den Hv Hden ms' asp Hms' Hasp)) in Hd.
+    injection Hd as Hd.
+    assert (Hent : In (o, co_name c, sel_outcomes c lab) sels).
+    { apply (sels_char q outv ds sels Hsels). exists (o, indices asp), c, lab. repeat split.
+      - apply in_or_app. left. apply in_map_iff. exists a. split; [|assumption]. now rewrite Hna, Hd.
+      - apply in_or_app. now left.
+      - unfold sel_wanted. rewrite Hk1, Hax. cbn [Nat.eqb]. apply Nat.ltb_lt. lia.
+      - cbn [snd]. rewrite Hax. apply subset_str_spec. intros k' [<-|[]]. exact Hk.
+      - assumption. }
+    rewrite Hnil in Hent. destruct Hent.
+  Qed.
+End ObsZ.
+
 (* ================================================================ the capstone *)
 Theorem capstone_req q :
   valid_req q = true -> region_conflict q = false -> region_plain q = false -> q_kind q = 0 ->
@@ -1384,11 +1499,39 @@ Proof.
   now rewrite parse_render_entries, parse_render_entries, parse_render_sels.
 Qed.
 
+
+Theorem capstone_req1 q :
+  valid_req q = true -> region_conflict q = false -> region_plain q = false -> q_kind q = 1 ->
+  region_zsel q = false -> spec_req q (run_req q) = true.
+Proof.
+  intros Hv Hconf Hplain Hk1 Hz.
+  destruct (valid_req_denote q Hv) as [Hreq [den Hden]].
+  unfold region_conflict in Hconf. unfold region_plain in Hplain. rewrite Hden in Hconf, Hplain.
+  destruct (model_values_denote q den Hreq Hden) as [st [Hrun [Houtv Hsame]]].
+  destruct (dataset_vars_total (specs_of q) (input_names q) (output_names q) (q_li q)
+              (v_out_names_nodup q den Hv Hden) (v_topo q den Hv Hden) (v_cons q den Hv Hden)
+              (v_no_colon q den Hv Hden) (v_known q den Hv Hden)) as [ds Hds].
+  destruct (sels_rendered1 q den (outv_of (r_out st)) ds Hv Hden Houtv Hds Hk1) as [sels Hsels].
+  pose proof (ds_obs_defined1 q den (outv_of (r_out st)) ds Hv Hden Houtv Hds Hconf Hplain Hk1 sels Hsels) as Hobs.
+  assert (Hmodel : model_obs q = Ok {| o_same := true; o_vars := []; o_coords := []; o_sels := sels |}).
+  { unfold model_obs. rewrite Hrun. cbn [bind]. rewrite Hds. cbn [bind]. now rewrite Hsame. }
+  unfold region_zsel in Hz. rewrite Hk1, Hmodel in Hz. cbn in Hz. apply negb_false_iff in Hz.
+  assert (Hnil : sels = []) by (destruct sels; [reflexivity|discriminate]).
+  unfold run_req. rewrite Hmodel. unfold spec_req. rewrite Hv. cbn [negb]. rewrite Hden. unfold render.
+  cbn [o_same o_vars o_coords o_sels map]. rewrite str_eqb_refl, !sx_eqb_SB. cbn [andb omapM].
+  rewrite parse_render_sels. unfold spec_body. rewrite Hk1. cbn [Nat.eqb]. subst sels. cbn [forallb andb].
+  apply forallb_forall. intros [o ks] Hmo. cbn [fst snd]. apply forallb_forall. intros k Hk.
+  exact (zsel_ok_all q den (outv_of (r_out st)) ds Hv Hden Houtv Hds Hk1 [] o ks k Hsels eq_refl Hmo Hk).
+Qed.
+
 (* Outside the regions of the three known findings, the observation of the model satisfies the executable
    statement that the harness applies to the implementation. *)
 Theorem capstone c : valid c = true -> known_region c = false -> spec_ok c (run c) = true.
 Proof.
   unfold valid, known_region, spec_ok, run. destruct (resolve c) as [q|e]; [|discriminate].
   intros Hv Hr. apply orb_false_iff in Hr as [Hr Hz]. apply orb_false_iff in Hr as [Hc Hp].
-  unfold region_zsel in Hz. apply negb_false_iff, Nat.eqb_eq in Hz. now apply capstone_req.
+  destruct (q_kind q) as [|[|n]] eqn:Ek.
+  - now apply capstone_req.
+  - now apply capstone_req1.
+  - exfalso. unfold valid_req in Hv. apply andb_true_iff in Hv as [_ Hv]. rewrite Ek in Hv. discriminate.
 Qed.
